@@ -443,6 +443,21 @@ func featuresOf(c *core.Case) *features {
 			}
 		}
 	}
+	// behind a store the write unit(s) can be busy for a whole memory latency:
+	// the instructions that follow pile up on the buses and in the execute
+	// units and read their registers late
+	for i := 0; i < n; i++ {
+		if !inst(i).Op.IsStore() {
+			continue
+		}
+		for j := i + 1; j < n && j <= i+16; j++ {
+			for _, r := range inst(j).Reads() {
+				if rewritten(r, j, 8) {
+					victim(j)
+				}
+			}
+		}
+	}
 	for i := 0; i < n; i++ {
 		ld := inst(i)
 		if ld.Op.IsStore() && (rewritten(ld.Rs1, i, 8) || rewritten(ld.Rs2, i, 8)) {
